@@ -367,6 +367,26 @@ class _PE:
         for i, st in enumerate(stmts):
             self.cur = (stmts, i)
             out.extend(self.stmt(st))
+        # flag = True; while flag: BODY; flag = E      ->      while True: BODY; if not E: break
+        i = 0
+        while i + 1 < len(out):
+            a, b = out[i], out[i + 1]
+            if isinstance(a, ast.Assign) and len(a.targets) == 1 and isinstance(a.targets[0], ast.Name) and isinstance(a.value, ast.Constant) and a.value.value is True \
+                    and isinstance(b, ast.While) and isinstance(b.test, ast.Name) and b.test.id == a.targets[0].id and not b.orelse and b.body:
+                flag = a.targets[0].id
+                last = b.body[-1]
+                stores = [x for x in ast.walk(self.fn) if isinstance(x, ast.Name) and x.id == flag and isinstance(x.ctx, (ast.Store, ast.Del))]
+                loads = [x for x in ast.walk(self.fn) if isinstance(x, ast.Name) and x.id == flag and isinstance(x.ctx, ast.Load)]
+                jumps = [x for s_ in b.body for x in ast.walk(s_) if isinstance(x, (ast.Continue, ast.Break))]
+                if isinstance(last, ast.Assign) and len(last.targets) == 1 and isinstance(last.targets[0], ast.Name) and last.targets[0].id == flag \
+                        and len(stores) == 2 and len(loads) == 1 and not jumps:
+                    brk = ast.If(test=ast.UnaryOp(op=ast.Not(), operand=last.value), body=[ast.Break()], orelse=[])
+                    new_loop = ast.copy_location(ast.While(test=ast.Constant(value=True), body=b.body[:-1] + [brk], orelse=[]), b)
+                    ast.fix_missing_locations(new_loop)
+                    out[i:i + 2] = [new_loop]
+                    self.changed += 1
+                    continue
+            i += 1
         # d = {..} directly followed by d.update({..}) / d['k'] = v : one display
         i = 0
         while i + 1 < len(out):
